@@ -36,7 +36,7 @@ def main(tier):
                 atoms = re.split(r' \| ', parts[2])
                 atoms += [a.split('@')[0] for a in atoms if '@' in a]
                 rep.fail(f'{parts[2]} @ worker-death', atoms, dict(sig=parts[2], truth=tr, death=tail[-600:]))
-    if len(recs) + len(dead) != len(truth):
+    if len(recs) + len(dead) != len(truth) and not any(b.startswith('ABORTED') for b, _ in deaths):
         vlib.tool_error(f'backtrace records incomplete: {len(recs)}+{len(dead)} of {len(truth)}')
     evals = ntraces = nontriv = wf_checked = 0
     samples = []
